@@ -18,20 +18,22 @@ def lemma_sign_cancels(m):
     return 0
 
 
+def lemma_chosen_stays_chosen(first_to_second):
+    """two sorted orderings of one joint sample, no tie at the cut of the first: a draw is among the n_min smallest of one ordering iff it is
+    among those of the other (one direction per call: a Skolem-named counterexample and a pigeonhole instance)"""
+    chosen_stays_chosen(first_to_second)
+    return 0
+
+
 def lemma_counts_agree():
-    """two orderings of one joint sample, no tie at the cut of the first: a model's draws among the n_min smallest are counted equally
-    (Claims A and B: chosen in one ordering <=> chosen in the other; then two injections between the counted sets)"""
-    chosen_stays_chosen(True)
-    chosen_stays_chosen(False)
+    """the same draws are chosen in both orderings: a model's chosen draws are counted equally (two injections between the counted sets)"""
     count_le(True)
     count_le(False)
     return 0
 
 
 def lemma_permuted_models(models, priors, permuted, permuted_priors):
-    """two calls of the real compare_models (bound in the environment to the instrumented function read from the tree);
-    `reindexing()` is a ghost statement: facts about the block re-indexing between the two concatenations (sizes only)"""
-    reindexing()
+    """two calls of the real compare_models (bound in the environment to the instrumented function read from the tree)"""
     r1 = compare_models(models, priors)
     r2 = compare_models(permuted, permuted_priors)
     return (r1, r2)
@@ -50,6 +52,32 @@ def lemma_monotone_cum(a, b):
     """v >= 0, cum prefix sums, 0 <= a <= b <= n  =>  cum(a) <= cum(b)"""
     j = a
     while j < b:
+        inst(j)
+        j = j + 1
+    return j
+
+
+def lemma_weight_sign():
+    """k >= 0, n_sim >= 1, prior > 0, w = k / n_sim * prior  =>  w >= 0 and (k >= 1 => w > 0): pure field arithmetic, no ghost steps needed"""
+    return 0
+
+
+def lemma_normalise():
+    """S = sum w_i, q_i = w_i / S:  S != 0 => sum q_i = 1;  w_i >= 0, S > 0 => 0 <= q_i <= 1: pure field arithmetic"""
+    return 0
+
+
+def lemma_reindexing():
+    """the block re-indexing phi / psi between the concatenation of a model list and of the permuted list (sizes only);
+    `blocks()` is a ghost statement: the facts block by block"""
+    blocks()
+    return 0
+
+
+def lemma_zero_row(m):
+    """D(c+1) = D(c) + x(c)*b(c), D(0) = 0, x(c) = 0 on [0,m)  =>  D(m) = 0"""
+    j = 0
+    while j < m:
         inst(j)
         j = j + 1
     return j
